@@ -203,7 +203,14 @@ func generate(rng *rand.Rand, thresh int) *history {
 			c := g.open[i]
 			g.open = append(g.open[:i], g.open[i+1:]...)
 			g.closed = append(g.closed, c)
-			g.h.Events = append(g.h.Events, hevent{Kind: "close", Conn: c})
+			if g.p(0.35) {
+				// the close lands while a (generated as usual) report of that connection is in flight
+				g.report(c)
+				rep := g.h.Events[len(g.h.Events)-1]
+				g.h.Events[len(g.h.Events)-1] = hevent{Kind: "close", Conn: c, Racing: true, RaceObs: rep.Obs, Class: rep.Class}
+			} else {
+				g.h.Events = append(g.h.Events, hevent{Kind: "close", Conn: c})
+			}
 		case r < pNew+(1-pNew)*(0.63+pClose) && len(g.closed) > 0:
 			// report on an already closed connection (identify finishing late)
 			g.report(g.closed[g.pick(len(g.closed))])
